@@ -1249,6 +1249,16 @@ func (m *Manager) Unlock(ns walletdb.ReadBucket, passphrase []byte) error {
 				return err
 			}
 
+			// Addresses of a watch-only account only ever have a
+			// public key, so there is no private key to derive for
+			// them.
+			if !addressKey.IsPrivate() {
+				addressKey.Zero()
+				manager.deriveOnUnlock[0] = nil
+				manager.deriveOnUnlock = manager.deriveOnUnlock[1:]
+				continue
+			}
+
 			// It's ok to ignore the error here since it can only
 			// fail if the extended key is not private, however it
 			// was just derived as a private key.
